@@ -4,7 +4,7 @@ import json
 CLOSURE = ["Model/Elect.v", "Proofs/ElectP.v"]
 COQ_FILES = ["Base/Sha256.v", "Corr/Run_Elect.v"]
 
-C04_SIGS = {"l2-not-exactly-one", "l2-announcer-without-eligible", "l2-winner-not-eligible",
+C04_SIGS = {"speakerlist-usable-differs-from-members", "speakerlist-disabled-wrong", "l2-not-exactly-one", "l2-announcer-without-eligible", "l2-winner-not-eligible",
             "l2-depends-on-map-order", "l2-shared-same-first-differs", "l2-elect-shared-nonfirst-address"}
 C12_SIGS = {"l2-moved-on-nonowner-loss", "l2-moved-between-survivors",
             "l2-choice-not-function-of-names-and-address", "l2-depends-on-map-order",
@@ -31,6 +31,17 @@ def run(ctx, prop, sigs):
         return cases
 
     cases = harness(n, ctx.seed, "h")
+    if prop == "C04":
+        # the candidates of the election come from SpeakerList.UsableSpeakers(): drive the real
+        # function over real loopback memberlist instances (1..3 members, members leaving)
+        recs, ok2, log2 = ctx.go_harness("internal/speakerlist", ["zz_verif_sl_test.go"], "TestVerifSpeakerList$", tag="sl")
+        for r in recs:
+            if r.get("t") == "fail" and r.get("sig") in sigs:
+                ctx.oracle_fail(r["sig"], r.get("what", ""), r.get("replay"))
+            elif r.get("t") == "stat":
+                state["stats"][r["k"]] = state["stats"].get(r["k"], 0) + r["v"]
+        if not ok2 and not any("does not build" in c for c in ctx.corr_broken):
+            ctx.corr_broken.append("harness TestVerifSpeakerList failed: " + log2[-1200:])
     state["cases"] = cases
     mism = []
     if cases and ok:
@@ -55,6 +66,7 @@ def run(ctx, prop, sigs):
                                  "decisions_compared": sum(len(c["in"]["names"]) for c in cases)}
     ctx.trusted += ["H-sha: SHA-256 has no collision among the <node>#<address> strings of one election (premise inj_on of the theorems)",
                     "Go sort.Slice puts the least element first when the comparator is a strict total order on the slice",
+                    "internal/speakerlist UsableSpeakers is not modelled: the real function is driven over real loopback memberlist instances and must return exactly the live members (oracle only); memberlist itself is trusted",
                     "model covers speaker/layer2_controller.go ShouldAnnounce/speakersForPool/nodesWithEndpoint/activeEndpointExists/poolMatchesNodeL2, nodes.go, EndpointCanServe",
                     "Base/Sha256.v (Uint63 primitives) is used in the correspondence only; no theorem depends on it"]
     ctx.assumptions += ["all speakers share one cluster view (the property's premise); memberlist convergence is not modelled"]
